@@ -61,8 +61,10 @@ type world struct {
 
 	fileQueries []query
 	typeQueries []query
-	lastFiles   [][]int64 // observation after the previous sweep (for the model-free "nothing changed")
-	lastTypes   [][]int64
+	lastFiles   observation // observation after the previous sweep (for the model-free "nothing changed")
+	lastTypes   observation
+	gotBuf      []int64
+	wantBuf     []int64
 }
 
 func newWorld(c histCase) (*world, error) {
@@ -165,6 +167,13 @@ func (w *world) descResult(buf []int64, d protoreflect.Descriptor, err error) []
 		return append(buf, declID(r))
 	}
 	return append(buf, rForeign)
+}
+
+func (w *world) descOne(d protoreflect.Descriptor) int64 {
+	if r, ok := w.descIDs[d]; ok {
+		return declID(r)
+	}
+	return rForeign
 }
 
 func (w *world) fileSet(buf, ids []int64) []int64 {
@@ -435,32 +444,44 @@ func (w *world) show(r []int64) string {
 	return "[" + strings.Join(parts, " ") + "]"
 }
 
-func (w *world) checkQuery(q query, when string) ([]int64, error) {
-	got, want := w.observe(q), w.expect(q)
-	if !same(got, want) {
-		return got, fmt.Errorf("%s: %s(%q,%d) = %s, name-table model says %s", when, q.Op, q.Name, q.Num, w.show(got), w.show(want))
+func (w *world) checkQuery(q query, when string) error {
+	w.gotBuf, w.wantBuf = w.observe(q, w.gotBuf[:0]), w.expect(q, w.wantBuf[:0])
+	if !same(w.gotBuf, w.wantBuf) {
+		return fmt.Errorf("%s: %s(%q,%d) = %s, name-table model says %s", when, q.Op, q.Name, q.Num, w.show(w.gotBuf), w.show(w.wantBuf))
 	}
-	return got, nil
+	return nil
 }
 
+// observation of all queries of one registry: flat results + start offsets.
+type observation struct {
+	flat []int64
+	off  []int32
+}
+
+func (o observation) at(i int) []int64 { return o.flat[o.off[i]:o.off[i+1]] }
+
 // sweep compares every query of one registry with the model and returns the raw observation.
-func (w *world) sweep(qs []query, when string) ([][]int64, error) {
-	obs := make([][]int64, len(qs))
-	for i, q := range qs {
-		got, err := w.checkQuery(q, when)
-		if err != nil {
-			return nil, err
+func (w *world) sweep(qs []query, when string) (observation, error) {
+	o := observation{flat: make([]int64, 0, 2*len(qs)+16), off: make([]int32, 0, len(qs)+1)}
+	for _, q := range qs {
+		start := len(o.flat)
+		o.off = append(o.off, int32(start))
+		o.flat = w.observe(q, o.flat)
+		got := o.flat[start:]
+		w.wantBuf = w.expect(q, w.wantBuf[:0])
+		if !same(got, w.wantBuf) {
+			return o, fmt.Errorf("%s: %s(%q,%d) = %s, name-table model says %s", when, q.Op, q.Name, q.Num, w.show(got), w.show(w.wantBuf))
 		}
-		obs[i] = got
 	}
-	return obs, nil
+	o.off = append(o.off, int32(len(o.flat)))
+	return o, nil
 }
 
 // unchanged is the model-free half of "a failed registration changes nothing".
-func (w *world) unchanged(qs []query, before, after [][]int64, when string) error {
+func (w *world) unchanged(qs []query, before, after observation, when string) error {
 	for i := range qs {
-		if !same(after[i], before[i]) {
-			return fmt.Errorf("%s: the failed registration changed %s(%q,%d): before %s, after %s", when, qs[i].Op, qs[i].Name, qs[i].Num, w.show(before[i]), w.show(after[i]))
+		if !same(after.at(i), before.at(i)) {
+			return fmt.Errorf("%s: the failed registration changed %s(%q,%d): before %s, after %s", when, qs[i].Op, qs[i].Name, qs[i].Num, w.show(before.at(i)), w.show(after.at(i)))
 		}
 	}
 	return nil
@@ -596,11 +617,11 @@ func run(c histCase, reg bool) (outcome, error) {
 			if o.Q == nil {
 				continue
 			}
-			if r := w.expect(*o.Q); r[0] > 0 && strings.HasPrefix(o.Q.Op, "Find") {
+			if r := w.expect(*o.Q, nil); r[0] > 0 && strings.HasPrefix(o.Q.Op, "Find") {
 				out.queryHits++
 			}
 			if reg {
-				if _, err := w.checkQuery(*o.Q, fmt.Sprintf("op %d", i)); err != nil {
+				if err := w.checkQuery(*o.Q, fmt.Sprintf("op %d", i)); err != nil {
 					return out, err
 				}
 			}
@@ -677,9 +698,19 @@ func classes(c histCase) []string {
 var queryOps = []string{"FindDescriptorByName", "FindDescriptorByName", "FindDescriptorByName", "NumFilesByPackage", "RangeFilesByPackage",
 	"FindMessageByName", "FindEnumByName", "FindExtensionByName", "FindMessageByURL", "FindExtensionByNumber", "NumExtensionsByMessage", "FindFileByPath"}
 
-func drawDotted(t *rapid.T) string {
-	if rapid.IntRange(0, 9).Draw(t, "malformed") == 0 {
+func drawDotted(t *rapid.T, known []string) string {
+	switch k := rapid.IntRange(0, 9).Draw(t, "namesrc"); {
+	case k == 0:
 		return rapid.SampledFrom(malformed).Draw(t, "bad")
+	case k < 6 && len(known) > 0: // a declared name of some pool file (registered or not), sometimes one level deeper or shallower
+		n := rapid.SampledFrom(known).Draw(t, "known")
+		switch rapid.IntRange(0, 5).Draw(t, "tweak") {
+		case 0:
+			return n + "." + drawName(t)
+		case 1:
+			return parentName(n)
+		}
+		return n
 	}
 	n := rapid.IntRange(1, 6).Draw(t, "parts")
 	parts := make([]string, n)
@@ -689,19 +720,19 @@ func drawDotted(t *rapid.T) string {
 	return strings.Join(parts, ".")
 }
 
-func drawQuery(t *rapid.T) *query {
+func drawQuery(t *rapid.T, known []string) *query {
 	q := &query{Op: rapid.SampledFrom(queryOps).Draw(t, "qop")}
 	switch q.Op {
 	case "FindFileByPath":
 		q.Name = rapid.SampledFrom(paths).Draw(t, "qpath")
 	case "FindExtensionByNumber":
-		q.Name = drawDotted(t)
+		q.Name = drawDotted(t, known)
 		q.Num = int32(rapid.IntRange(0, 5).Draw(t, "qnum"))
 	case "FindMessageByURL":
-		q.Name = drawDotted(t)
+		q.Name = drawDotted(t, known)
 		q.Num = int32(rapid.IntRange(0, len(urlForms)-1).Draw(t, "form"))
 	default:
-		q.Name = drawDotted(t)
+		q.Name = drawDotted(t, known)
 	}
 	return q
 }
@@ -711,6 +742,12 @@ func drawHistory(t *rapid.T) histCase {
 	n := rapid.IntRange(2, 12).Draw(t, "pool")
 	for i := 0; i < n; i++ {
 		c.Pool = append(c.Pool, drawFile(t))
+	}
+	var known []string
+	for _, s := range c.Pool {
+		for _, d := range declsOf(buildFDP(s)) {
+			known = append(known, d.Name)
+		}
 	}
 	steps := rapid.IntRange(1, 40).Draw(t, "steps")
 	for i := 0; i < steps; i++ {
@@ -725,7 +762,7 @@ func drawHistory(t *rapid.T) histCase {
 		case k < 17:
 			o = op{K: "ext", F: rapid.IntRange(0, n).Draw(t, "f"), D: rapid.IntRange(0, 5).Draw(t, "d")}
 		default:
-			o = op{K: "query", Q: drawQuery(t)}
+			o = op{K: "query", Q: drawQuery(t, known)}
 		}
 		c.Ops = append(c.Ops, o)
 	}
@@ -740,6 +777,6 @@ func TestHistories(t *testing.T) {
 		Check:      checkHistory,
 		NonTrivial: nonTrivial,
 		Classes:    classes,
-		Quick:      4000, Thorough: 60000,
+		Quick:      3000, Thorough: 40000,
 	})
 }
